@@ -561,6 +561,11 @@ pub fn re_case(l: &[Sx]) -> String {
                 chk(matches!(&p_all, Ok(Value::String(s)) if *s == splice(usize::MAX)), "re_replace without limit rewrites exactly the matches re_find reports");
                 let n = if limit >= 1.0 { limit.floor() as usize } else { usize::MAX };
                 chk(matches!(&p_lim, Ok(Value::String(s)) if *s == splice(n)), "re_replace with limit n rewrites only the first n matches");
+            } else {
+                // a replacement text containing `$`: the builtin passes it to the engine, whose expansion rules ($n, ${name}, $$) do not depend on the pattern's shape
+                let n = if limit >= 1.0 { limit.floor() as usize } else { 0 };
+                chk(matches!(&p_all, Ok(Value::String(s)) if *s == re.replacen(&hay, 0, rep.as_str())), "re_replace expands the replacement text as the engine does");
+                chk(matches!(&p_lim, Ok(Value::String(s)) if *s == re.replacen(&hay, n, rep.as_str())), "re_replace with limit expands the replacement text as the engine does");
             }
         }
     }
